@@ -241,9 +241,10 @@ func (me *multiEndpoint) switchFromTo(f, t *endpoint) {
 		me.Lock()
 		defer me.Unlock()
 		if e, ok := me.endpoints[me.future]; ok && e.status == available {
-			if c, ok := me.endpoints[me.current]; ok && c.status == available && c.priority < e.priority {
+			if c, ok := me.endpoints[me.current]; ok && c.status != unavailable && c.priority < e.priority {
 				// The endpoints were re-prioritized since this switch was scheduled:
-				// never move from an available endpoint to a lower priority one.
+				// never move from an available endpoint, or from one that is still
+				// inside its recovery window, to a lower priority one.
 				return
 			}
 			me.current = e.id
